@@ -117,6 +117,22 @@ pub fn eval(case: &Case) -> Outcome {
                 }
             }
         }
+        // (b') super-class relations stated only by a removed file: the generator declares
+        // `---@class <Shared>: <Marker>Base<n>` (and the base class itself) in ONE file only, so a
+        // super entry naming `<Marker>Base…` of a removed file is a fact that file left behind
+        if let Some(types) = d.get("types").and_then(|t| t.as_object()) {
+            for (name, v) in types {
+                for sup in v.get("supers").and_then(|l| l.as_array()).cloned().unwrap_or_default() {
+                    let sup = sup.as_str().unwrap_or("").to_string();
+                    for i in &removed {
+                        let base = format!("{}Base", case.ws.files[*i].marker);
+                        if has_marker(&sup, &case.ws.files[*i].marker) && sup.contains(&base) && seen.insert("super-of-removed-file".into()) {
+                            traces.push(Trace { clause: "super-class-stated-by-removed-file:section=types.supers".into(), detail: format!("type {name} still has the super class {sup}, which only the removed file {} stated", case.ws.files[*i].path) });
+                        }
+                    }
+                }
+            }
+        }
         // (b) module resolution of R's module names
         {
             let db = a.compilation.get_db();
